@@ -47,6 +47,11 @@ def main():
     rc, out = sh("git -C /repo apply %s" % os.path.join(outdir, "patch.diff"))
     assert rc == 0, "patch does not apply: " + out
     results = {}
+    # checks rewrite evidence/<id>.json on every run: keep the clean-tree evidence
+    import tempfile
+    keep = tempfile.mkdtemp(prefix="evid-", dir="/verif/.work")
+    for f in os.listdir("/verif/evidence"):
+        shutil.copy(os.path.join("/verif/evidence", f), keep)
     try:
         for c in checks:
             rc, out = sh("./check %s --tier quick" % c, cwd="/verif", timeout=3000)
@@ -54,6 +59,9 @@ def main():
             results[c] = {"exit": rc, "violation_lines": len(lines), "first": (out.split("\n")[1][:300] if lines and len(out.split("\n")) > 1 else "")}
     finally:
         sh("git -C /repo checkout -- .")
+        for f in os.listdir(keep):
+            shutil.copy(os.path.join(keep, f), "/verif/evidence")
+        shutil.rmtree(keep, ignore_errors=True)
     report["checks"] = results
     report["detected_by"] = [c for c, r in results.items() if r["exit"] != 0]
     n = 0
